@@ -76,9 +76,9 @@ def rand_label(rng):
     return us
 
 
-def rand_mbr(rng, S, force=None):
+def rand_mbr(rng, S, force=None, tiny=False):
     small = S > 512
-    maxlba = 14 if small else 100
+    maxlba = (6 if small else 24) if tiny else (14 if small else 100)
     slots = [('empty',)] * 4
     nprim = rng.choice([0, 1, 1, 2, 2, 3, 4])
     want_ext = rng.random() < 0.6
@@ -125,14 +125,14 @@ def rand_mbr(rng, S, force=None):
     return dict(kind='mbr', sig=rng.randrange(1 << 32), tail=rng.choice([0, 0, 1, 3]), slots=slots)
 
 
-def rand_gpt(rng, S, count=None):
+def rand_gpt(rng, S, count=None, tiny=False):
     k = rng.choice([0, 0, 0, 1, 2])
     esize = 128 << k
     if count is None:
         count = rng.choice([1, 2, 3, 4, 5, 7, 8, 16, 31, 32, 33, 64, 127, 128, 129, 140, rng.randrange(1, 141)])
     if esize * count > 80000:
         count = 80000 // esize
-    maxlba = 12 if S > 512 else 90
+    maxlba = (5 if S > 512 else 20) if tiny else (12 if S > 512 else 90)
     nused = rng.choice([0, 1, 1, 2, 3, 5, min(count, 12), count if count <= 40 else 3])
     used = set(rng.sample(range(count), min(nused, count)))
     if rng.random() < 0.3:
@@ -176,8 +176,13 @@ def wire_layout(l):
 
 # ---- python mirror of coq/Disk/Build.v (cross-checked against the extracted build on every case;
 #      used alone only when the Coq side does not build, so that the oracle still finds failing inputs)
+_PAT = bytes((x * 7 + 5) % 251 for x in range(251))
+
+
 def fill(n, o):
-    return bytes((x * 7 + (x // 256) * 13 + 5) % 251 for x in range(o, o + max(0, n)))
+    n = max(0, n)
+    k = o % 251
+    return (_PAT * ((n + k) // 251 + 1))[k:k + n]
 
 
 def part_entry(ty, first, size):
@@ -694,18 +699,18 @@ def run(ctx, build):
     # ---- (ii) single-field corruptions of both headers ------------------------------------------
     for r in range(3 if deep else 1):
         for S in S_CHOICES:
-            l = rand_gpt(rng, S, count=rng.choice([4, 8, 12]))
+            l = rand_gpt(rng, S, count=rng.choice([4, 8, 12]), tiny=True)
             l['pmbr'] = [None, 77][(r + (S > 512)) % 2]
             gpt_corruptions(ctx, G, S, l)
-            m = rand_mbr(rng, S, force='ext')
+            m = rand_mbr(rng, S, force='ext', tiny=True)
             while not py_wf(m):
-                m = rand_mbr(rng, S, force='ext')
+                m = rand_mbr(rng, S, force='ext', tiny=True)
             mbr_corruptions(ctx, G, S, m)
     ctx.sample(dict(kind='corruption', field='revision', value=0x20000, expect='ValueError'))
 
     # ---- (iv) tiny / truncated images -----------------------------------------------------------
     for S in S_CHOICES:
-        for l in (rand_gpt(rng, S, count=6), rand_mbr(rng, S, force='ext')):
+        for l in (rand_gpt(rng, S, count=6, tiny=True), rand_mbr(rng, S, force='ext', tiny=True)):
             raw = G.build(S, l)
             cuts = {1, 2, 91, 92, 511, 512, 513, 603, 604, S - 1, S, S + 1, S + 91, S + 92, S + 93, 2 * S, 2 * S + 1,
                     len(raw) - 1, len(raw) - S, len(raw) - S - 1, len(raw) // 2, 3 * S + 100}
